@@ -86,7 +86,7 @@ func Run(r *ev.Run) {
 	full, core := AlphabetIndex(false), AlphabetIndex(true)
 	spaces := []fileSpace{{full, 3}, {core, 4}}
 	sweepLen, bfsDepth := 2, 3
-	budget := 75 * time.Second
+	budget := 150 * time.Second
 	if thorough {
 		spaces = []fileSpace{{full, 4}, {core, 5}}
 		sweepLen, bfsDepth = 2, 3
